@@ -9,7 +9,7 @@ from . import common, c01
 
 ID = "C02"
 LEVEL = "exploration"
-RULE = ("block 'mono' (enumerated completely, exhaustive for its bounds): monotonic axis of length 0-5 with labels 1,3,5,.. x {int,float} x "
+RULE = ("block 'mono' (enumerated completely, exhaustive for its bounds; thorough tier: length 0-7 and steps up to 4 / -3): monotonic axis of length 0-5 with labels 1,3,5,.. x {int,float} x "
         "{inc,dec} x start,stop in {None} U every half step from 2 below the smallest to 2 above the largest label x step in "
         "{None,1,2,3,-1,-2}; random blocks: shuffled-numeric and str axes with bounds from the labels (and absent bounds), slices in "
         "any dimension of 1-4-d arrays combined with other index kinds, position slices vs NumPy. "
@@ -21,8 +21,9 @@ STEPS = [None, 1, 2, 3, -1, -2]
 NSH = 16
 
 
-def mono_cases():
-    for n in range(0, 6):
+def mono_cases(maxn=5, steps=None):
+    steps = steps or STEPS
+    for n in range(0, maxn + 1):
         for kind in 'if':
             for dirn in ((1, -1) if n > 1 else (1,)):
                 lab = [2 * k + 1 for k in range(n)][::dirn]
@@ -32,7 +33,7 @@ def mono_cases():
                 bounds = [None] + [x / 2.0 for x in range(-2, 2 * hi + 3)]
                 for lo in bounds:
                     for up in bounds:
-                        for step in STEPS:
+                        for step in steps:
                             yield {"block": "mono", "lab": lab, "kind": kind, "start": lo, "stop": up, "step": step}
 
 
@@ -40,7 +41,7 @@ def shards(tier, seed, scale=1.0):
     out = []
     for i in range(NSH):
         out.append({"name": "mono-%d" % i, "kind": "enum", "block": "mono", "part": i, "of": NSH, "exhaustive": True,
-                    "seed": seed, "guest_ok": i == 0})
+                    "seed": seed, "guest_ok": i == 0, "tier": tier})
     out += common.rand_shards(ID, tier, seed, scale, 8000, 300000, nshards=NSH)
     return out
 
@@ -49,7 +50,9 @@ def cases(desc):
     if desc["kind"] == "enum":
         frac = desc.get("frac", 1.0)
         stride = desc["of"] * (int(round(1 / frac)) if frac < 1 else 1)
-        for i, c in enumerate(mono_cases()):
+        deep = desc.get("tier") == "thorough" and not desc.get("guest_of")
+        gen_ = mono_cases(7, [None, 1, 2, 3, 4, -1, -2, -3]) if deep else mono_cases()
+        for i, c in enumerate(gen_):
             if i % stride == desc["part"]:
                 yield c
         return
